@@ -7,6 +7,7 @@ import os
 import numpy as np
 
 import c06_entries
+import smooth_translate
 import common
 from common import F, InfraError, Rng, close, digest, err_class, fl, rs, vec
 
@@ -34,7 +35,7 @@ PARTIAL = [
     "the default bandwidth n^(-1/5): the count n per entry point is modelled exactly (bandwidthCount) and compared with "
     "the bandwidth captured at the smoother (C07 harness); the fifth root itself is float",
 ]
-TRUSTED_EXTRA = ["sklearn.preprocessing.PolynomialFeatures: monomials of total degree <= d, graded order (re-checked by the correspondence on every run)"]
+TRUSTED_EXTRA = ["translators harness/c06.py (kernels) and harness/smooth_translate.py (syntax -> lean/FDAModel/Core/NpLP.lean combinators; the meaning of each NumPy operation is stated there)", "sklearn.preprocessing.PolynomialFeatures: monomials of total degree <= d, graded order (re-checked by the correspondence on every run)"]
 
 KERNELS = ["gaussian", "epanechnikov", "tricube", "bisquare"]
 COND_OK = 1e5      # centred/scaled normal matrix: compare values only below this
@@ -256,30 +257,35 @@ def kernels_lean_source(path):
 
 
 TRANSLATOR_NOTE = None
+KERNELS_REFERENCE = os.path.join(os.path.dirname(os.path.abspath(__file__)), "c06_kernels_reference.lean")
 
 
 def translate():
-    """Regenerate Generated/Kernels.lean from what the source says now.  A source whose shape is not recognised (a
-    refactor) is NOT an alarm: the last generated file is kept, the evidence says that the tie of the kernels to the
-    source rests on the correspondence only for this run.  Only a successful translation can break a proof obligation."""
+    """Regenerate Generated/Kernels.lean and Generated/SmoothFormulas.lean from what the source says now.  A source whose
+    shape is not recognised (a refactor) is NOT an alarm: the reference translation stored beside the translator is used
+    (not what an earlier run left in Generated/), the evidence says that the tie to the source rests on the correspondence
+    only for this run.  Only a successful translation can break a proof obligation."""
     global TRANSLATOR_NOTE
     path = os.path.join(common.REPO, "FDApy", "preprocessing", "smoothing", "local_polynomial.py")
     try:
         src = kernels_lean_source(path)
+        note = "translator: kernels regenerated from the source and re-proved equal to the model (C06.kernel_gen_eq_model)"
     except (ValueError, SyntaxError, IndexError, AttributeError, KeyError, TypeError) as e:
-        if not os.path.exists(GEN_FILE):
-            raise InfraError(f"translator: kernels of {path} not recognised ({e}) and no generated file to fall back on")
-        TRANSLATOR_NOTE = f"translator: source shape not recognised, tie rests on the correspondence only ({e})"
-        print("note:", TRANSLATOR_NOTE)
-        return
+        src = open(KERNELS_REFERENCE).read()
+        note = f"translator: kernel source shape not recognised, reference translation used, tie rests on the correspondence only ({e})"
+        print("note:", note)
     except OSError as e:
         raise InfraError(f"translator: cannot read {path}: {e}")
-    TRANSLATOR_NOTE = "translator: kernels regenerated from the source and re-proved equal to the model (C06.kernel_gen_eq_model)"
     old = open(GEN_FILE).read() if os.path.exists(GEN_FILE) else None
     if old != src:
         os.makedirs(os.path.dirname(GEN_FILE), exist_ok=True)
         with open(GEN_FILE, "w") as fh:
             fh.write(src)
+    try:
+        note2 = smooth_translate.regenerate(common.REPO, common.LEAN_DIR)
+    except OSError as e:
+        raise InfraError(f"translator: cannot read the sources under {common.REPO}: {e}")
+    TRANSLATOR_NOTE = note + "; " + note2
 
 
 # --------------------------------------------------------------------------
